@@ -177,14 +177,17 @@ Definition Acq (m : mst) (r c : nat) : Prop :=
 Definition CkOK (m : mst) (r : nat) (ck : checkout) : Prop :=
   (forall c, k_conn ck = Some c -> Acq m r c) /\ (forall c t, k_slot ck = Some (c, t) -> Acq m r c).
 
+(* a request the tracker believes to be live (no hand-off, result or cancel yet) is a checkout or an error in the model *)
+Definition live_req (q : req) : Prop := match q with RCheckout _ | RError => True | _ => False end.
+
 Record RM (ex : option nat) (m : mst) (s : state) : Prop := mkRM {
   rm_len : List.length (cv m) = List.length (copen s);
   rm_rlen : List.length (reqs s) <= List.length (rv m);
   rm_open : forall c v, nth_error (copen s) c = Some true -> nth_error (cv m) c = Some v -> v_closed v = None;
   rm_held : forall r w c, Some r <> ex -> nth_error (rv m) r = Some w -> v_stat w = SHeld c ->
             exists t f p, nth_error (reqs s) r = Some (RHolding (c, t) f p);
-  rm_back : forall c v cl, nth_error (cv m) c = Some v -> v_closed v = Some cl -> v_back v <= cl;
-  rm_store : forall r ck, nth_error (reqs s) r = Some (RCheckout ck) -> CkOK m r ck
+  rm_store : forall r ck, nth_error (reqs s) r = Some (RCheckout ck) -> CkOK m r ck;
+  rm_live : forall r w q, Some r <> ex -> nth_error (rv m) r = Some w -> v_stat w = SLive -> nth_error (reqs s) r = Some q -> live_req q
 }.
 
 Lemma Acq_track_ev m e r c : Acq m r c -> Acq (track_ev m e) r c.
@@ -209,23 +212,30 @@ Proof. unfold Acq. intros -> ->. auto. Qed.
 
 Lemma RM_views ex m m' s : cv m' = cv m -> rv m' = rv m -> RM ex m s -> RM ex m' s.
 Proof.
-  intros Hc Hr [H1 H2 H3 H4 H5 H6]. constructor; rewrite ?Hc, ?Hr; auto.
+  intros Hc Hr [H1 H2 H3 H4 H6 H7]. constructor; rewrite ?Hc, ?Hr; auto.
   intros r ck H. destruct (H6 r ck H) as [Ha Hb]. split; intros; eapply Acq_views; eauto.
 Qed.
 
 Lemma RM_fr ex m s s' : copen s' = copen s -> reqs s' = reqs s -> RM ex m s -> RM ex m s'.
-Proof. intros Hc Hr [H1 H2 H3 H4 H5 H6]. constructor; rewrite ?Hc, ?Hr; auto. Qed.
+Proof. intros Hc Hr [H1 H2 H3 H4 H6 H7]. constructor; rewrite ?Hc, ?Hr; auto. Qed.
 
 Lemma RM_weaken ex m s : RM None m s -> RM ex m s.
-Proof. intros [H1 H2 H3 H4 H5 H6]. constructor; auto. intros r w c _. apply H4. discriminate. Qed.
+Proof.
+  intros [H1 H2 H3 H4 H6 H7]. constructor; auto.
+  - intros r w c _. apply H4. discriminate.
+  - intros r w q _. apply H7. discriminate.
+Qed.
 
 Lemma RM_restore r ex m s : RM (Some r) m s ->
   (forall w c, nth_error (rv m) r = Some w -> v_stat w = SHeld c ->
      exists t f p, nth_error (reqs s) r = Some (RHolding (c, t) f p)) ->
+  (forall w, nth_error (rv m) r = Some w -> v_stat w <> SLive) ->
   RM ex m s.
 Proof.
-  intros [H1 H2 H3 H4 H5 H6] Hr. constructor; auto. intros r' w c _ Hw Hs.
-  destruct (Nat.eq_dec r' r) as [->|Hne]; [eapply Hr; eauto|]. eapply H4; eauto. congruence.
+  intros [H1 H2 H3 H4 H6 H7] Hr Hnl. constructor; auto.
+  - intros r' w c _ Hw Hs.
+    destruct (Nat.eq_dec r' r) as [->|Hne]; [eapply Hr; eauto|]. eapply H4; eauto. congruence.
+  - intros r' w q _ Hw Hs Hq. destruct (Nat.eq_dec r' r) as [->|Hne]; [exfalso; eapply Hnl; eauto|]. eapply H7; eauto. congruence.
 Qed.
 
 Lemma Acq_of_open ex m s r c : RM ex m s -> nth_error (copen s) c = Some true -> Acq m r c.
@@ -251,11 +261,19 @@ Qed.
 
 Lemma RM_res ex m r x s : RM ex m s -> RM ex (track_ev m (ERes r x)) s.
 Proof.
-  intros HR. pose proof HR as [H1 H2 H3 H4 H5 H6].
+  intros HR. pose proof HR as [H1 H2 H3 H4 H6 H7].
   constructor; rewrite ?cv_track_ev, ?rv_track_ev; cbn [cv_ev rv_ev]; rewrite ?upd_nth_length; auto.
   - intros r' w c Hne Hw Hs. rewrite nth_error_upd_nth in Hw. destruct (Nat.eqb r r'); [|eauto].
     destruct (nth_error (rv m) r'); [|discriminate]. inversion Hw; subst. cbn in Hs. discriminate.
   - intros r' ck Hq. apply CkOK_track_ev. auto.
+  - intros r' w q Hne Hw Hs. rewrite nth_error_upd_nth in Hw. destruct (Nat.eqb r r'); [|eauto].
+    destruct (nth_error (rv m) r'); [|discriminate]. inversion Hw; subst. cbn in Hs. discriminate.
+Qed.
+
+Lemma res_not_live m r x w : nth_error (rv (track_ev m (ERes r x))) r = Some w -> v_stat w <> SLive.
+Proof.
+  rewrite rv_track_ev. cbn [rv_ev]. rewrite nth_error_upd_nth_eq. destruct (nth_error (rv m) r); [|discriminate].
+  intros H Hs. inversion H; subst. cbn in Hs. discriminate.
 Qed.
 
 Lemma res_not_held m r x w c : nth_error (rv (track_ev m (ERes r x))) r = Some w -> v_stat w = SHeld c -> False.
@@ -266,13 +284,10 @@ Qed.
 
 Lemma RM_rdy ex m c s : nth_error (copen s) c = Some true -> RM ex m s -> RM ex (track_ev m (ERdy c true)) s.
 Proof.
-  intros Ho HR. pose proof HR as [H1 H2 H3 H4 H5 H6].
+  intros Ho HR. pose proof HR as [H1 H2 H3 H4 H6 H7].
   constructor; rewrite ?cv_track_ev, ?rv_track_ev; cbn [cv_ev rv_ev]; rewrite ?upd_nth_length; auto.
   - intros c' v Ho' Hv. rewrite nth_error_upd_nth in Hv. destruct (Nat.eqb c c'); [|eauto].
     destruct (nth_error (cv m) c') as [v0|] eqn:E; [|discriminate]. inversion Hv; subst. cbn. eauto.
-  - intros c' v cl Hv Hcl. rewrite nth_error_upd_nth in Hv. destruct (Nat.eqb_spec c c') as [<-|Hne]; [|eauto].
-    destruct (nth_error (cv m) c) as [v0|] eqn:E; [|discriminate]. inversion Hv; subst. cbn in Hcl.
-    rewrite (H3 c v0 Ho E) in Hcl. discriminate.
   - intros r' ck Hq. apply CkOK_track_ev. auto.
 Qed.
 
@@ -281,9 +296,10 @@ Lemma RM_set_req ex m s r v :
   RM ex m s ->
   (forall w c, Some r <> ex -> nth_error (rv m) r = Some w -> v_stat w = SHeld c -> exists t f p, v = RHolding (c, t) f p) ->
   (forall ck, v = RCheckout ck -> CkOK m r ck) ->
+  (forall w, Some r <> ex -> nth_error (rv m) r = Some w -> v_stat w = SLive -> live_req v) ->
   RM ex m (set_req r v s).
 Proof.
-  intros [H1 H2 H3 H4 H5 H6] Hh Hs. constructor; auto.
+  intros [H1 H2 H3 H4 H6 H7] Hh Hs Hl. constructor; auto.
   - unfold set_req. cbn [reqs set_reqs]. rewrite upd_nth_length. exact H2.
   - intros r' w c Hne Hw Hst. unfold set_req. cbn [reqs set_reqs]. rewrite nth_error_upd_nth.
     destruct (Nat.eqb_spec r r') as [<-|Hn]; [|eauto].
@@ -292,11 +308,14 @@ Proof.
   - intros r' ck. unfold set_req. cbn [reqs set_reqs]. rewrite nth_error_upd_nth.
     destruct (Nat.eqb_spec r r') as [<-|Hn]; [|eauto].
     destruct (nth_error (reqs s) r); [|discriminate]. cbn [option_map]. intros H. inversion H; subst. auto.
+  - intros r' w q Hne Hw Hst. unfold set_req. cbn [reqs set_reqs]. rewrite nth_error_upd_nth.
+    destruct (Nat.eqb_spec r r') as [<-|Hn]; [|eauto].
+    destruct (nth_error (reqs s) r); [|discriminate]. cbn [option_map]. intros H. inversion H; subst. eauto.
 Qed.
 
 Lemma RM_close_model ex m s c : RM ex m s -> RM ex m (upd_conn c (c_set_open false) s).
 Proof.
-  intros [H1 H2 H3 H4 H5 H6]. constructor; auto.
+  intros [H1 H2 H3 H4 H6 H7]. constructor; auto.
   - unfold copen, upd_conn. cbn [conns set_conns]. rewrite map_length, upd_nth_length. rewrite H1. unfold copen. rewrite map_length. reflexivity.
   - intros c' v Ho. apply H3. unfold copen, upd_conn in Ho. cbn [conns set_conns] in Ho.
     rewrite nth_error_map', nth_error_upd_nth in Ho. unfold copen. rewrite nth_error_map'.
@@ -338,28 +357,71 @@ Proof.
     + cbn in Hlt. lia.
 Qed.
 
-(* first clause of chk_ev_C05 (with the existence of both tracker records) *)
-Definition chk1 (m : mst) (e : ev) : bool :=
+(* the part of the first clause of chk_ev_C05 that is proved here (with the existence of both tracker
+   records): the connection was not closed before the request was issued; and, for the hand-back half
+   (done in pool/ProofsC05.v), a closed connection's ci_back has not moved during this op ([m0]: the
+   tracker after track_op) *)
+Definition chk1 (m0 m : mst) (e : ev) : bool :=
   match e with
   | EHand r c _ _ _ _ =>
       match nth_error (m_conns m) c, nth_error (m_reqs m) r with
       | Some x, Some y =>
-          match ci_closed x with Some cl => negb (Nat.ltb cl (Nat.max (ci_back x) (ri_at y))) | None => true end
+          match ci_closed x with
+          | Some cl => negb (Nat.ltb cl (ri_at y))
+                       && match nth_error (m_conns m0) c with Some x0 => Nat.eqb (ci_back x) (ci_back x0) | None => false end
+          | None => true
+          end
       | _, _ => false
       end
   | _ => true
   end.
 
-Lemma chk_hand m r c b1 b2 b3 n v w :
-  nth_error (cv m) c = Some v -> nth_error (rv m) r = Some w ->
-  (forall cl, v_closed v = Some cl -> v_back v <= cl /\ v_at w <= cl) ->
-  chk1 m (EHand r c b1 b2 b3 n) = true.
+(* within an op: the connections known at its start keep their ci_closed, and the closed ones their ci_back *)
+Definition BK (m0 m : mst) : Prop :=
+  List.length (cv m0) <= List.length (cv m) /\
+  (forall c v0 v, nth_error (cv m0) c = Some v0 -> nth_error (cv m) c = Some v ->
+    v_closed v = v_closed v0 /\ (v_closed v0 <> None -> v_back v = v_back v0)) /\
+  (forall c v, nth_error (cv m0) c = None -> nth_error (cv m) c = Some v -> v_closed v = None).
+
+Lemma BK_refl m : BK m m.
+Proof. split; [lia|]. split; [intros c v0 v H0 H; rewrite H0 in H; inversion H; subst; auto|intros c v H0 H; congruence]. Qed.
+
+Lemma BK_track_ev m0 m e : BK m0 m ->
+  (forall c, e = ERdy c true -> forall v, nth_error (cv m) c = Some v -> v_closed v = None) -> BK m0 (track_ev m e).
 Proof.
-  unfold cv, rv. rewrite !nth_error_map'. intros Hv Hw Hcl. cbn [chk1].
+  intros (HL & HB & HN) He. split; [rewrite cv_track_ev; pose proof (cv_ev_length m e (cv m)); lia|]. split.
+  - intros c v0 v H0 H. rewrite cv_track_ev in H.
+    assert (Hlt : c < List.length (cv m)) by (pose proof (nth_error_lt _ _ _ H0); lia).
+    destruct e; cbn [cv_ev] in H; try (apply (HB c v0 v H0 H)).
+    + rewrite nth_error_app1 in H by exact Hlt. apply (HB c v0 v H0 H).
+    + destruct ok; [|apply (HB c v0 v H0 H)]. rewrite nth_error_upd_nth in H. destruct (Nat.eqb_spec c0 c) as [->|Hn]; [|apply (HB c v0 v H0 H)].
+      destruct (nth_error (cv m) c) as [v1|] eqn:E1; [|discriminate]. inversion H; subst. cbn [v_closed v_back].
+      destruct (HB c v0 v1 H0 E1) as [A B]. split; [exact A|]. intros Hn. exfalso. apply Hn. rewrite <- A. apply (He c eq_refl v1 E1).
+  - intros c v H0 H. rewrite cv_track_ev in H. apply cv_ev_inv in H as [(v1 & H1 & Hc & _)|[_ ->]]; [|reflexivity].
+    rewrite Hc. eapply HN; eauto.
+Qed.
+
+Definition TB (m0 m : mst) : Prop := TI m /\ BK m0 m.
+
+Lemma chk_hand m0 m r c b1 b2 b3 n v w :
+  nth_error (cv m) c = Some v -> nth_error (rv m) r = Some w -> BK m0 m ->
+  (forall cl, v_closed v = Some cl -> v_at w <= cl) ->
+  chk1 m0 m (EHand r c b1 b2 b3 n) = true.
+Proof.
+  intros Hv Hw (_ & HB & HN) Hcl. cbn [chk1].
+  assert (HB' : forall x0, nth_error (m_conns m0) c = Some x0 -> v_closed v <> None -> v_back v = ci_back x0).
+  { intros x0 E0 Hn. assert (E : nth_error (cv m0) c = Some (cv_of x0)) by (unfold cv; rewrite nth_error_map', E0; reflexivity).
+    destruct (HB c _ v E Hv) as [A B]. rewrite B; [reflexivity|]. rewrite <- A. exact Hn. }
+  assert (HN' : nth_error (m_conns m0) c = None -> v_closed v = None).
+  { intros E0. apply (HN c v); [unfold cv; rewrite nth_error_map', E0; reflexivity|exact Hv]. }
+  unfold cv in Hv. unfold rv in Hw. rewrite nth_error_map' in Hv. rewrite nth_error_map' in Hw.
   destruct (nth_error (m_conns m) c) as [x|]; [|discriminate]. destruct (nth_error (m_reqs m) r) as [y|]; [|discriminate].
   cbn [option_map] in Hv, Hw. inversion Hv; inversion Hw; subst.
   cbn [cv_of rv_of v_closed v_back v_at v_time v_btime v_popc] in *.
-  destruct (ci_closed x) as [cl|]; [|reflexivity]. destruct (Hcl cl eq_refl). apply negb_true_iff, Nat.ltb_ge. lia.
+  destruct (ci_closed x) as [cl|]; [|reflexivity]. apply andb_true_iff. split.
+  - pose proof (Hcl cl eq_refl). apply negb_true_iff, Nat.ltb_ge. lia.
+  - destruct (nth_error (m_conns m0) c) as [x0|] eqn:E0; [apply Nat.eqb_eq; apply HB'; [reflexivity|discriminate]|].
+    exfalso. specialize (HN' eq_refl). congruence.
 Qed.
 
 Lemma evs_ok_snoc f : forall l m e, evs_ok f m (l ++ [e]) = evs_ok f m l && f (fold_left track_ev l m) e.
@@ -374,7 +436,7 @@ Proof. unfold cur, emit. cbn [out set_out rev]. rewrite fold_left_app. reflexivi
 
 (* the events so far are accepted and the invariants hold for the tracker state after them *)
 Definition G (ex : option nat) (m0 : mst) (s : state) : Prop :=
-  evs_ok chk1 m0 (rev (out s)) = true /\ TI (cur m0 s) /\ RM ex (cur m0 s) s.
+  evs_ok (chk1 m0) m0 (rev (out s)) = true /\ TB m0 (cur m0 s) /\ RM ex (cur m0 s) s.
 
 Definition fr (s s' : state) : Prop := out s' = out s /\ copen s' = copen s /\ reqs s' = reqs s.
 Lemma fr_refl s : fr s s. Proof. repeat split. Qed.
@@ -386,11 +448,12 @@ Proof.
   intros (Ho & Hc & Hr) (H1 & H2 & H3). unfold G, cur in *. rewrite Ho. split; [|split]; auto. eapply RM_fr; eauto.
 Qed.
 
-Lemma G_emit ex m0 e s : G ex m0 s -> chk1 (cur m0 s) e = true -> RM ex (track_ev (cur m0 s) e) s -> G ex m0 (emit e s).
+Lemma G_emit ex m0 e s : G ex m0 s -> chk1 m0 (cur m0 s) e = true -> RM ex (track_ev (cur m0 s) e) s ->
+  (forall c, e = ERdy c true -> forall v, nth_error (cv (cur m0 s)) c = Some v -> v_closed v = None) -> G ex m0 (emit e s).
 Proof.
-  intros (H1 & H2 & H3) Hc HR. unfold G. rewrite cur_emit. split; [|split].
+  intros (H1 & [H2 H2'] & H3) Hc HR Hb. unfold G. rewrite cur_emit. split; [|split].
   - unfold emit. cbn [out set_out rev]. rewrite evs_ok_snoc, H1. exact Hc.
-  - apply TI_track_ev, H2.
+  - split; [apply TI_track_ev, H2|apply BK_track_ev; assumption].
   - eapply RM_fr; [| |exact HR]; reflexivity.
 Qed.
 
@@ -399,20 +462,25 @@ Proof.
   intros He HG. apply G_emit; auto.
   - destruct e; try contradiction; reflexivity.
   - apply RM_irrel; auto. apply HG.
+  - intros c E. subst e. contradiction.
 Qed.
 
 Lemma G_emit_res ex m0 r x s : G ex m0 s -> G ex m0 (emit (ERes r x) s).
-Proof. intros HG. apply G_emit; auto. apply RM_res, HG. Qed.
+Proof. intros HG. apply G_emit; auto; [apply RM_res, HG|discriminate]. Qed.
 
 Lemma G_emit_rdy ex m0 c s : nth_error (copen s) c = Some true -> G ex m0 s -> G ex m0 (emit (ERdy c true) s).
-Proof. intros Ho HG. apply G_emit; auto. apply RM_rdy; auto. apply HG. Qed.
+Proof.
+  intros Ho HG. apply G_emit; auto; [apply RM_rdy; auto; apply HG|].
+  intros c' E v Hv. inversion E; subst c'. destruct HG as (_ & _ & HR). eapply rm_open; eauto.
+Qed.
 
 Lemma G_set_req ex m0 s r v : G ex m0 s ->
   (forall w c, Some r <> ex -> nth_error (rv (cur m0 s)) r = Some w -> v_stat w = SHeld c -> exists t f p, v = RHolding (c, t) f p) ->
   (forall ck, v = RCheckout ck -> CkOK (cur m0 s) r ck) ->
+  (forall w, Some r <> ex -> nth_error (rv (cur m0 s)) r = Some w -> v_stat w = SLive -> live_req v) ->
   G ex m0 (set_req r v s).
 Proof.
-  intros (H1 & H2 & H3) Hh Hs. split; [|split]; [exact H1|exact H2|]. apply (RM_set_req ex (cur m0 s) s r v); auto.
+  intros (H1 & H2 & H3) Hh Hs Hl. split; [|split]; [exact H1|exact H2|]. apply (RM_set_req ex (cur m0 s) s r v); auto.
 Qed.
 
 Lemma G_set_req_ck ex m0 s r ck0 ck : G ex m0 s -> get_req s r = Some (RCheckout ck0) -> CkOK (cur m0 s) r ck ->
@@ -421,6 +489,7 @@ Proof.
   intros HG Hq Hck. apply G_set_req; auto.
   - intros w c Hne Hw Hs. exfalso. destruct HG as (_ & _ & HR). eapply not_held_ck; eauto.
   - intros ck' H. inversion H; subst. exact Hck.
+  - intros; exact I.
 Qed.
 
 Lemma G_set_req_x r m0 s v : G (Some r) m0 s -> (forall ck, v <> RCheckout ck) -> G (Some r) m0 (set_req r v s).
@@ -428,6 +497,7 @@ Proof.
   intros HG Hv. apply G_set_req; auto.
   - intros w c Hne. contradiction Hne. reflexivity.
   - intros ck H. exfalso. eapply Hv; eauto.
+  - intros w Hne. contradiction Hne. reflexivity.
 Qed.
 
 Lemma G_weaken ex m0 s : G None m0 s -> G ex m0 s.
@@ -436,8 +506,9 @@ Proof. intros (H1 & H2 & H3). split; [|split]; auto. apply RM_weaken, H3. Qed.
 Lemma G_restore r ex m0 s : G (Some r) m0 s ->
   (forall w c, nth_error (rv (cur m0 s)) r = Some w -> v_stat w = SHeld c ->
      exists t f p, nth_error (reqs s) r = Some (RHolding (c, t) f p)) ->
+  (forall w, nth_error (rv (cur m0 s)) r = Some w -> v_stat w <> SLive) ->
   G ex m0 s.
-Proof. intros (H1 & H2 & H3) Hr. split; [|split]; auto. eapply RM_restore; eauto. Qed.
+Proof. intros (H1 & H2 & H3) Hr Hnl. split; [|split]; auto. eapply RM_restore; eauto. Qed.
 
 (* ------------------------------------------------------------------ frames *)
 Lemma fr_upd_conn c f s : (forall cn, c_open (f cn) = c_open cn) -> fr s (upd_conn c f s).
@@ -703,7 +774,7 @@ Proof. unfold register. destruct (g_pool cfg && negb (Nat.eqb t 0)); [destruct (
 Lemma RM_new ex m s sh rid cn :
   RM ex m s -> RM ex (track_ev m (ENew (List.length (conns s)) sh rid)) (set_conns (conns s ++ [cn]) s).
 Proof.
-  intros HR. pose proof HR as [H1 H2 H3 H4 H5 H6].
+  intros HR. pose proof HR as [H1 H2 H3 H4 H6 H7].
   assert (Hco : copen (set_conns (conns s ++ [cn]) s) = copen s ++ [c_open cn])
     by (unfold copen; cbn [conns set_conns]; rewrite map_app; reflexivity).
   constructor; rewrite ?cv_track_ev, ?rv_track_ev, ?Hco; cbn [cv_ev rv_ev]; auto.
@@ -711,9 +782,6 @@ Proof.
   - intros c v Ho Hv. rewrite nth_error_snoc in Hv. rewrite nth_error_snoc in Ho. rewrite <- H1 in Ho.
     destruct (Nat.ltb c (List.length (cv m))); [eauto|].
     destruct (Nat.eqb c (List.length (cv m))); [|discriminate]. inversion Hv; reflexivity.
-  - intros c v cl Hv Hcl. rewrite nth_error_snoc in Hv.
-    destruct (Nat.ltb c (List.length (cv m))); [eauto|].
-    destruct (Nat.eqb c (List.length (cv m))); [|discriminate]. inversion Hv; subst. discriminate.
   - intros r ck Hq. apply CkOK_track_ev. auto.
 Qed.
 
@@ -722,7 +790,7 @@ Lemma G_new_conn ex m0 s sh rid cn :
 Proof.
   intros (H1 & H2 & H3). unfold G. rewrite cur_emit. split; [|split].
   - unfold emit. cbn [out set_out set_conns rev]. rewrite evs_ok_snoc, H1. reflexivity.
-  - apply TI_track_ev, H2.
+  - destruct H2 as [H2 H2']. split; [apply TI_track_ev, H2|apply BK_track_ev; [exact H2'|discriminate]].
   - eapply RM_fr; [| |apply (RM_new ex (cur m0 s) s sh rid cn H3)]; reflexivity.
 Qed.
 
@@ -879,18 +947,21 @@ Proof. apply rv_len_fold. Qed.
 
 Lemma G_add_req ex m0 s v dl :
   G ex m0 s -> List.length (reqs s) < List.length (rv (cur m0 s)) ->
-  (forall ck, v = RCheckout ck -> CkOK (cur m0 s) (List.length (reqs s)) ck) ->
+  (forall ck, v = RCheckout ck -> CkOK (cur m0 s) (List.length (reqs s)) ck) -> live_req v ->
   G ex m0 (set_dials dl (set_reqs (reqs s ++ [v]) s)).
 Proof.
-  intros (H1 & H2 & H3) Hlt Hs. split; [exact H1|]. split; [exact H2|].
+  intros (H1 & H2 & H3) Hlt Hs Hlv. split; [exact H1|]. split; [exact H2|].
   change (cur m0 (set_dials dl (set_reqs (reqs s ++ [v]) s))) with (cur m0 s).
-  destruct H3 as [R1 R2 R3 R4 R5 R6]. constructor; auto.
+  destruct H3 as [R1 R2 R3 R4 R6 R7]. constructor; auto.
   - cbn [reqs set_dials set_reqs]. rewrite app_length. cbn [List.length]. lia.
   - intros r w c Hne Hw Hst. destruct (R4 r w c Hne Hw Hst) as (t & f & p & Hq). exists t, f, p.
     cbn [reqs set_dials set_reqs]. rewrite nth_error_app1 by (eapply nth_error_lt; eauto). exact Hq.
   - intros r ck. cbn [reqs set_dials set_reqs]. rewrite nth_error_snoc.
     destruct (Nat.ltb r (List.length (reqs s))); [apply R6|].
     destruct (Nat.eqb_spec r (List.length (reqs s))) as [->|]; [|discriminate]. intros E. inversion E; subst. auto.
+  - intros r w q Hne Hw Hst. cbn [reqs set_dials set_reqs]. rewrite nth_error_snoc.
+    destruct (Nat.ltb r (List.length (reqs s))); [eauto|].
+    destruct (Nat.eqb r (List.length (reqs s))); [|discriminate]. intros E. inversion E; subst. exact Hlv.
 Qed.
 
 Lemma CkOK_new m r t w i own txd : CkOK m r (new_ck t w i None own txd).
@@ -903,16 +974,16 @@ Proof.
   assert (H0 : G ex m0 s0) by (eapply G_fr; [|exact H]; repeat split).
   assert (L0 : reqs s0 = reqs s) by reflexivity.
   destruct (nth u (g_uris cfg) None) as [k|].
-  2: { apply G_add_req; [exact H0|rewrite rv_len_cur, L0; exact Hlt|discriminate]. }
+  2: { apply G_add_req; [exact H0|rewrite rv_len_cur, L0; exact Hlt|discriminate|exact I]. }
   destruct (negb (g_pool cfg)).
-  { apply G_add_req; [exact H0|rewrite rv_len_cur, L0; exact Hlt|]. intros ck E. inversion E; subst. apply CkOK_new. }
+  { apply G_add_req; [exact H0|rewrite rv_len_cur, L0; exact Hlt| |exact I]. intros ck E. inversion E; subst. apply CkOK_new. }
   pose proof (fr_key_insert k s0) as F1. destruct (key_insert k s0) as [t s1]. cbn [snd] in F1.
   assert (H1 : G ex m0 s1) by (eapply G_fr; eauto).
   assert (L1 : reqs s1 = reqs s) by (destruct F1 as (_ & _ & ->); exact L0).
   destruct (G_pool_pop ex m0 (g_timeout cfg) t s1 H1) as [H2 Ho2]. pose proof (fe_pool_pop (g_timeout cfg) t s1) as [_ L2].
   destruct (pool_pop (g_timeout cfg) t s1) as [found s2]. cbn [fst snd] in *. rewrite L1 in L2.
   destruct found as [c|].
-  { apply G_add_req; [exact H2|rewrite rv_len_cur, L2; exact Hlt|].
+  { apply G_add_req; [exact H2|rewrite rv_len_cur, L2; exact Hlt| |exact I].
     intros ck E. inversion E; subst. split; cbn [new_ck k_conn k_slot]; [|discriminate].
     intros c' Ec. inversion Ec; subst. eapply G_Acq_open; eauto. }
   set (pending := match p_marker (get_tok s2 t) with Some _ => true | None => false end).
@@ -921,18 +992,22 @@ Proof.
   assert (H3 : G ex m0 s3) by (eapply G_fr; eauto).
   assert (L3 : reqs s3 = reqs s) by (destruct F3 as (_ & _ & ->); exact L2).
   destruct pending.
-  { apply G_add_req; [exact H3|rewrite rv_len_cur, L3; exact Hlt|].
+  { apply G_add_req; [exact H3|rewrite rv_len_cur, L3; exact Hlt| |exact I].
     intros ck E. inversion E; subst. apply CkOK_new. }
   set (s4 := if match p with H1 => false | H2 => true end then upd_tok t (set_marker (Some (List.length (reqs s)))) s3 else s3).
   assert (F4 : fr s3 s4) by (subst s4; destruct p; [apply fr_refl|apply fr_upd_tok]).
   assert (H4 : G ex m0 s4) by (eapply G_fr; eauto).
   assert (L4 : reqs s4 = reqs s) by (destruct F4 as (_ & _ & ->); exact L3).
-  apply G_add_req; [exact H4|rewrite rv_len_cur, L4; exact Hlt|].
+  apply G_add_req; [exact H4|rewrite rv_len_cur, L4; exact Hlt| |exact I].
   intros ck E. inversion E; subst. apply CkOK_new.
 Qed.
 
 Lemma G_restore_res r x m0 s s' : G (Some r) m0 s' -> cur m0 s' = track_ev (cur m0 s) (ERes r x) -> G None m0 s'.
-Proof. intros H E. apply (G_restore r); [exact H|]. intros w c Hw Hs. exfalso. rewrite E in Hw. eapply res_not_held; eauto. Qed.
+Proof.
+  intros H E. apply (G_restore r); [exact H| |].
+  - intros w c Hw Hs. exfalso. rewrite E in Hw. eapply res_not_held; eauto.
+  - intros w Hw. rewrite E in Hw. eapply res_not_live; eauto.
+Qed.
 
 Lemma G_hold_release ex m0 r p s : G ex m0 s -> G ex m0 (hold_release r p s).
 Proof.
@@ -942,10 +1017,11 @@ Qed.
 
 Lemma RM_hand m r c b1 b2 b3 n s : RM None m s -> RM (Some r) (track_ev m (EHand r c b1 b2 b3 n)) s.
 Proof.
-  intros HR. pose proof HR as [H1 H2 H3 H4 H5 H6].
+  intros HR. pose proof HR as [H1 H2 H3 H4 H6 H7].
   constructor; rewrite ?cv_track_ev, ?rv_track_ev; cbn [cv_ev rv_ev]; rewrite ?upd_nth_length; auto.
   - intros r' w c' Hne Hw Hs. rewrite nth_error_upd_nth_ne in Hw by congruence. eapply H4; eauto. discriminate.
   - intros r' ck Hq. apply CkOK_track_ev. auto.
+  - intros r' w q Hne Hw Hs. rewrite nth_error_upd_nth_ne in Hw by congruence. eapply H7; eauto. discriminate.
 Qed.
 
 Lemma G_hand m0 r p b1 b2 b3 n f s :
@@ -954,12 +1030,11 @@ Lemma G_hand m0 r p b1 b2 b3 n f s :
 Proof.
   intros H HA Hr Hf. destruct p as [c t]. cbn [fst] in *.
   assert (H1 : G (Some r) m0 (emit (EHand r c b1 b2 b3 n) s)).
-  { pose proof H as (_ & HT & HR). apply G_emit; [apply G_weaken, H| |apply RM_hand, HR].
+  { pose proof H as (_ & [HT HB] & HR). apply G_emit; [apply G_weaken, H| |apply RM_hand, HR|discriminate].
     destruct HA as [Hc HA]. destruct (nth_error_ex _ _ Hc) as [v Hv].
     assert (Hr' : r < List.length (rv (cur m0 s))) by (pose proof (rm_rlen _ _ _ HR); lia).
     destruct (nth_error_ex _ _ Hr') as [w Hw].
-    eapply chk_hand; eauto.
-    intros cl Hcl. split; [eapply rm_back; eauto|eapply HA; eauto]. }
+    eapply chk_hand; eauto. }
   apply (G_restore r).
   - apply G_set_req_x; [|discriminate]. eapply G_fr; [apply fr_upd_conn, Hf|exact H1].
   - intros w c' Hw Hs.
@@ -969,6 +1044,11 @@ Proof.
     destruct (nth_error (rv (cur m0 s)) r); [|discriminate]. inversion Hw; subst. cbn in Hs. inversion Hs; subst.
     exists t, false, true. unfold set_req. cbn [reqs set_reqs upd_conn set_conns emit set_out].
     rewrite nth_error_upd_nth_eq. destruct (nth_error_ex _ _ Hr) as [q ->]. reflexivity.
+  - intros w Hw.
+    change (cur m0 (set_req r (RHolding (c, t) false true) (upd_conn c f (emit (EHand r c b1 b2 b3 n) s))))
+      with (cur m0 (emit (EHand r c b1 b2 b3 n) s)) in Hw.
+    rewrite cur_emit, rv_track_ev in Hw. cbn [rv_ev] in Hw. rewrite nth_error_upd_nth_eq in Hw.
+    destruct (nth_error (rv (cur m0 s)) r); [|discriminate]. inversion Hw; subst. cbn. discriminate.
 Qed.
 
 Lemma G_do_poll m0 r s : G None m0 s -> G None m0 (do_poll cfg r s).
@@ -995,22 +1075,25 @@ Proof.
     destruct fin.
     + eapply (G_restore_res r ROk m0); [|apply cur_emit].
       apply G_emit_res, G_hold_release. apply G_set_req_x; [|discriminate]. apply G_weaken, H1.
-    + apply G_emit_irrel; [exact I|]. apply G_set_req; [exact H1| |discriminate].
-      intros w c _ Hw Hs. destruct H as (_ & _ & HR).
-      destruct (rm_held _ _ _ HR r w c ltac:(discriminate) Hw Hs) as (t & f & p' & Hq').
-      unfold get_req in Hq. rewrite Hq in Hq'. inversion Hq'; subst. eauto.
+    + apply G_emit_irrel; [exact I|]. apply G_set_req; [exact H1| |discriminate|].
+      * intros w c _ Hw Hs. destruct H as (_ & _ & HR).
+        destruct (rm_held _ _ _ HR r w c ltac:(discriminate) Hw Hs) as (t & f & p' & Hq').
+        unfold get_req in Hq. rewrite Hq in Hq'. inversion Hq'; subst. eauto.
+      * intros w _ Hw Hs. destruct H as (_ & _ & HR). apply (rm_live _ _ _ HR r w _ ltac:(discriminate) Hw Hs Hq).
 Qed.
 
 Lemma cur_nil m0 s : out s = [] -> cur m0 s = m0.
 Proof. intros E. unfold cur. rewrite E. reflexivity. Qed.
 
 Lemma G_do_cancel m0 r s : out s = [] ->
-  (forall w c, nth_error (rv m0) r = Some w -> v_stat w = SHeld c -> False) ->
+  (forall w, nth_error (rv m0) r = Some w -> v_stat w = SDone \/ v_stat w = SCancelled) ->
   G None m0 s -> G None m0 (do_cancel cfg r s).
 Proof.
   intros Ho Hnh H.
   assert (Hset : G None m0 (set_req r RCancelled s)).
-  { apply G_set_req; [exact H| |discriminate]. intros w c _ Hw Hs. exfalso. rewrite (cur_nil m0 s Ho) in Hw. eauto. }
+  { apply G_set_req; [exact H| |discriminate|].
+    - intros w c _ Hw Hs. exfalso. rewrite (cur_nil m0 s Ho) in Hw. destruct (Hnh w Hw); congruence.
+    - intros w _ Hw Hs. exfalso. rewrite (cur_nil m0 s Ho) in Hw. destruct (Hnh w Hw); congruence. }
   unfold do_cancel. destruct (get_req s r) as [[|ck|p fin pl| |]|]; try exact H.
   - eapply G_fr; [apply fr_unwake_req|exact Hset].
   - eapply G_fr; [apply fr_unwake_req|]. apply G_checkout_drop, Hset.
@@ -1023,10 +1106,11 @@ Lemma G_do_finish m0 r s : G None m0 s -> G None m0 (do_finish r s).
 Proof.
   intros H. unfold do_finish. destruct (get_req s r) as [[|ck|p fin pl| |]|] eqn:Hq; try exact H.
   assert (H1 : G None m0 (set_req r (RHolding p true false) s)).
-  { apply G_set_req; [exact H| |discriminate].
-    intros w c _ Hw Hs. destruct H as (_ & _ & HR).
-    destruct (rm_held _ _ _ HR r w c ltac:(discriminate) Hw Hs) as (t & f & p' & Hq').
-    unfold get_req in Hq. rewrite Hq in Hq'. inversion Hq'; subst. eauto. }
+  { apply G_set_req; [exact H| |discriminate|].
+    - intros w c _ Hw Hs. destruct H as (_ & _ & HR).
+      destruct (rm_held _ _ _ HR r w c ltac:(discriminate) Hw Hs) as (t & f & p' & Hq').
+      unfold get_req in Hq. rewrite Hq in Hq'. inversion Hq'; subst. eauto.
+    - intros w _ Hw Hs. destruct H as (_ & _ & HR). apply (rm_live _ _ _ HR r w _ ltac:(discriminate) Hw Hs Hq). }
   destruct pl; [eapply G_fr; [apply fr_wake_req|exact H1]|exact H1].
 Qed.
 
@@ -1068,7 +1152,7 @@ Qed.
 Definition Inv (m : mst) (s : state) : Prop := TI m /\ RM None m s.
 
 Lemma G_of_Inv m0 s : out s = [] -> TI m0 -> RM None m0 s -> G None m0 s.
-Proof. intros Ho HT HR. unfold G. rewrite (cur_nil m0 s Ho), Ho. split; [reflexivity|]. split; assumption. Qed.
+Proof. intros Ho HT HR. unfold G. rewrite (cur_nil m0 s Ho), Ho. split; [reflexivity|]. split; [split; [assumption|apply BK_refl]|assumption]. Qed.
 
 Lemma G_start m0 s : TI m0 -> RM None m0 s -> G None m0 (set_out [] s).
 Proof. intros HT HR. apply G_of_Inv; [reflexivity|exact HT|]. eapply RM_fr; [| |exact HR]; reflexivity. Qed.
@@ -1113,10 +1197,10 @@ Proof.
 Qed.
 
 Lemma RM_stat ex m m' s r st : cv m' = cv m ->
-  rv m' = upd_nth r (fun w => mkRv st (v_at w) (v_time w) (v_popc w)) (rv m) -> (forall c, st <> SHeld c) ->
+  rv m' = upd_nth r (fun w => mkRv st (v_at w) (v_time w) (v_popc w)) (rv m) -> (forall c, st <> SHeld c) -> st <> SLive ->
   RM ex m s -> RM ex m' s.
 Proof.
-  intros Hc Hr Hst [H1 H2 H3 H4 H5 H6]. constructor; rewrite ?Hc, ?Hr, ?upd_nth_length; auto.
+  intros Hc Hr Hst Hsl [H1 H2 H3 H4 H6 H7]. constructor; rewrite ?Hc, ?Hr, ?upd_nth_length; auto.
   - intros r' w c Hne Hw Hs. rewrite nth_error_upd_nth in Hw. destruct (Nat.eqb r r'); [|eauto].
     destruct (nth_error (rv m) r'); [|discriminate]. inversion Hw; subst. cbn in Hs. exfalso. eapply Hst; eauto.
   - intros r' ck Hq. destruct (H6 r' ck Hq) as [A B].
@@ -1124,12 +1208,14 @@ Proof.
     { intros c. apply Acq_ext; [exact Hc|]. rewrite Hr. intros w' Hw'.
       destruct (upd_stat_inv _ _ _ _ _ Hw') as (w & Hw & E1 & _). exists w. auto. }
     split; intros; apply E; eauto.
+  - intros r' w q Hne Hw Hs. rewrite nth_error_upd_nth in Hw. destruct (Nat.eqb r r'); [|eauto].
+    destruct (nth_error (rv m) r'); [|discriminate]. inversion Hw; subst. cbn in Hs. contradiction.
 Qed.
 
 Lemma RM_rv_snoc ex m m' s w : cv m' = cv m -> rv m' = rv m ++ [w] -> (forall c, v_stat w <> SHeld c) ->
   RM ex m s -> RM ex m' s.
 Proof.
-  intros Hc Hr Hst [H1 H2 H3 H4 H5 H6]. constructor; rewrite ?Hc, ?Hr; auto.
+  intros Hc Hr Hst [H1 H2 H3 H4 H6 H7]. constructor; rewrite ?Hc, ?Hr; auto.
   - rewrite app_length. cbn [List.length]. lia.
   - intros r' w' c Hne Hw Hs. rewrite nth_error_snoc in Hw. destruct (Nat.ltb r' (List.length (rv m))); [eauto|].
     destruct (Nat.eqb r' (List.length (rv m))); [|discriminate]. inversion Hw; subst. exfalso. eapply Hst; eauto.
@@ -1138,6 +1224,8 @@ Proof.
     assert (E : forall c, Acq m r' c -> Acq m' r' c).
     { intros c. apply Acq_ext; [exact Hc|]. rewrite Hr. intros w' Hw'. rewrite nth_error_app1 in Hw' by exact Hlt. eauto. }
     split; intros; apply E; eauto.
+  - intros r' w' q Hne Hw Hs Hq. assert (Hlt : r' < List.length (rv m)) by (pose proof (nth_error_lt _ _ _ Hq); lia).
+    rewrite nth_error_app1 in Hw by exact Hlt. eauto.
 Qed.
 
 Definition closef (i : nat) (v : cvw) : cvw := mkCv (first_some (v_closed v) i) (v_back v) (v_btime v).
@@ -1145,11 +1233,8 @@ Definition closef (i : nat) (v : cvw) : cvw := mkCv (first_some (v_closed v) i) 
 Lemma RM_close ex m m' s c : cv m' = upd_nth c (closef (m_i m)) (cv m) -> rv m' = rv m -> TI m ->
   nth_error (copen s) c <> Some true -> RM ex m s -> RM ex m' s.
 Proof.
-  intros Hc Hr [T1 T2 T3] Hno [H1 H2 H3 H4 H5 H6]. constructor; rewrite ?Hc, ?Hr, ?upd_nth_length; auto.
+  intros Hc Hr [T1 T2 T3] Hno [H1 H2 H3 H4 H6 H7]. constructor; rewrite ?Hc, ?Hr, ?upd_nth_length; auto.
   - intros c' v Ho Hv. rewrite nth_error_upd_nth in Hv. destruct (Nat.eqb_spec c c') as [<-|Hne]; [contradiction|eauto].
-  - intros c' v cl Hv Hcl. rewrite nth_error_upd_nth in Hv. destruct (Nat.eqb c c'); [|eauto].
-    destruct (nth_error (cv m) c') as [v0|] eqn:E; [|discriminate]. inversion Hv; subst. cbn [closef v_closed v_back] in *.
-    destruct (v_closed v0) as [cl0|] eqn:E0; cbn [first_some] in Hcl; inversion Hcl; subst; eauto.
   - intros r ck Hq. destruct (H6 r ck Hq) as [A B].
     assert (E : forall c0, Acq m r c0 -> Acq m' r c0).
     { intros c0 [L HA]. split; rewrite Hc, ?Hr, ?upd_nth_length; [exact L|].
@@ -1195,25 +1280,72 @@ Proof.
     destruct (N.ltb_spec 0 d); [|lia]. apply N.leb_le. exact Hu.
 Qed.
 
-Lemma cancel_views m r ob :
-  cv (track_op cfg m (Cancel r) ob) = cv m /\ m_i (track_op cfg m (Cancel r) ob) = m_i m /\
-  (rv (track_op cfg m (Cancel r) ob) = rv m \/
-   rv (track_op cfg m (Cancel r) ob) = upd_nth r (fun w => mkRv SCancelled (v_at w) (v_time w) (v_popc w)) (rv m)) /\
-  (forall w c, nth_error (rv (track_op cfg m (Cancel r) ob)) r = Some w -> v_stat w = SHeld c -> False).
+(* the hand-back stamp of a dropped checkout (Cancel): only ci_back moves *)
+Definition backf (b : nat) (v : cvw) : cvw := mkCv (v_closed v) b (v_btime v).
+
+Lemma RM_backupd ex m m' s c b : cv m' = upd_nth c (backf b) (cv m) -> rv m' = rv m -> RM ex m s -> RM ex m' s.
 Proof.
-  cbn [track_op]. destruct (nth_error (m_reqs m) r) as [x|] eqn:E.
-  - assert (Hx : nth_error (rv m) r = Some (rv_of x)) by (unfold rv; rewrite nth_error_map', E; reflexivity).
-    assert (Hupd : rv (ri_upd (fun y => set_ri_pend false (set_ri_stat SCancelled
-                       match ri_stat y, ri_dial y with SLive, DsFlying => set_ri_aband true y | _, _ => y end)) r m)
-                   = upd_nth r (fun w => mkRv SCancelled (v_at w) (v_time w) (v_popc w)) (rv m)).
-    { apply rv_ri_upd. intros y. destruct (ri_stat y), (ri_dial y); reflexivity. }
-    destruct (ri_stat x) eqn:Es.
-    1,2: (split; [reflexivity|]; split; [reflexivity|]; split; [right; exact Hupd|]; rewrite Hupd, nth_error_upd_nth_eq, Hx;
-          intros w c1 Hw Hs; inversion Hw; subst; cbn in Hs; discriminate).
-    1,2: (split; [reflexivity|]; split; [reflexivity|]; split; [left; reflexivity|]; rewrite Hx;
-          intros w c1 Hw Hs; inversion Hw; subst; cbn in Hs; congruence).
-  - split; [reflexivity|]. split; [reflexivity|]. split; [left; reflexivity|].
-    intros w c Hw. unfold rv in Hw. rewrite nth_error_map', E in Hw. discriminate.
+  intros Hc Hr [H1 H2 H3 H4 H6 H7]. constructor; rewrite ?Hc, ?Hr, ?upd_nth_length; auto.
+  - intros c' v Ho Hv. rewrite nth_error_upd_nth in Hv. destruct (Nat.eqb c c'); [|eauto].
+    destruct (nth_error (cv m) c') as [v0|] eqn:E; [|discriminate]. inversion Hv; subst. cbn [backf v_closed]. eauto.
+  - intros r ck Hq. destruct (H6 r ck Hq) as [A B].
+    assert (E : forall c0, Acq m r c0 -> Acq m' r c0).
+    { intros c0 [L HA]. split; rewrite Hc, ?Hr, ?upd_nth_length; [exact L|].
+      intros v w cl Hv Hw Hcl. rewrite nth_error_upd_nth in Hv. destruct (Nat.eqb c c0); [|eauto].
+      destruct (nth_error (cv m) c0) as [v0|] eqn:E; [|discriminate]. inversion Hv; subst. cbn [backf v_closed] in Hcl. eauto. }
+    split; intros; apply E; eauto.
+Qed.
+
+Lemma TI_backupd m m' c : cv m' = upd_nth c (backf (m_i m)) (cv m) -> rv m' = rv m -> m_i m' = m_i m -> TI m -> TI m'.
+Proof.
+  intros Hc Hr Hi [H1 H2 H3]. constructor; rewrite ?Hc, ?Hr, ?Hi; auto.
+  - intros c' v Hv. rewrite nth_error_upd_nth in Hv. destruct (Nat.eqb c c'); [|eauto].
+    destruct (nth_error (cv m) c') as [v0|]; [|discriminate]. inversion Hv; subst. cbn [backf v_back]. lia.
+  - intros r w c' v d Hw Hp Hv Hd Hpos Hlt. rewrite nth_error_upd_nth in Hv. destruct (Nat.eqb c c'); [|eauto].
+    destruct (nth_error (cv m) c') as [v0|]; [|discriminate]. inversion Hv; subst. cbn [backf v_back] in Hlt.
+    pose proof (H1 r w Hw). lia.
+Qed.
+
+Lemma cancel_stat (F : rinfo -> rinfo) mb r x s :
+  (forall y, rv_of (F y) = mkRv SCancelled (v_at (rv_of y)) (v_time (rv_of y)) (v_popc (rv_of y))) ->
+  nth_error (m_reqs mb) r = Some x -> TI mb -> RM None mb s ->
+  TI (ri_upd F r mb) /\ RM None (ri_upd F r mb) s /\
+  (forall w, nth_error (rv (ri_upd F r mb)) r = Some w -> v_stat w = SDone \/ v_stat w = SCancelled).
+Proof.
+  intros HF E HT HR.
+  assert (Hx : nth_error (rv mb) r = Some (rv_of x)) by (unfold rv; rewrite nth_error_map', E; reflexivity).
+  assert (Hupd : rv (ri_upd F r mb) = upd_nth r (fun w => mkRv SCancelled (v_at w) (v_time w) (v_popc w)) (rv mb))
+    by (apply rv_ri_upd; exact HF).
+  split; [|split].
+  - apply (TI_pres mb (ri_upd F r mb)); [reflexivity| | |exact HT].
+    + rewrite Hupd. intros k w' Hw'. eapply upd_stat_inv; eauto.
+    + intros c v' Hv'. exists v'. auto.
+  - apply (RM_stat None mb (ri_upd F r mb) s r SCancelled); [reflexivity|exact Hupd|discriminate|discriminate|exact HR].
+  - rewrite Hupd, nth_error_upd_nth_eq, Hx. intros w Hw. inversion Hw; subst. right. reflexivity.
+Qed.
+
+Lemma cancel_ok m r ob s : TI m -> RM None m s ->
+  TI (track_op cfg m (Cancel r) ob) /\ RM None (track_op cfg m (Cancel r) ob) s /\
+  (forall w, nth_error (rv (track_op cfg m (Cancel r) ob)) r = Some w -> v_stat w = SDone \/ v_stat w = SCancelled).
+Proof.
+  intros HT HR. cbn [track_op]. destruct (nth_error (m_reqs m) r) as [x|] eqn:E.
+  2: { split; [exact HT|]. split; [exact HR|]. intros w Hw. unfold rv in Hw. rewrite nth_error_map', E in Hw. discriminate. }
+  assert (Hx : nth_error (rv m) r = Some (rv_of x)) by (unfold rv; rewrite nth_error_map', E; reflexivity).
+  assert (HF : forall y, rv_of (set_ri_pend false (set_ri_stat SCancelled
+                       match ri_stat y, ri_dial y with SLive, DsFlying => set_ri_aband true y | _, _ => y end))
+                  = mkRv SCancelled (v_at (rv_of y)) (v_time (rv_of y)) (v_popc (rv_of y)))
+    by (intros y; destruct (ri_stat y), (ri_dial y); reflexivity).
+  destruct (ri_stat x) eqn:Es.
+  - destruct (ri_popx x) as [c|]; [|apply (cancel_stat _ m r x s HF E HT HR)].
+    destruct (nth_error (m_conns m) c) as [y|]; [|apply (cancel_stat _ m r x s HF E HT HR)].
+    destruct (ci_share y); [apply (cancel_stat _ m r x s HF E HT HR)|].
+    assert (Hc : cv (ci_upd (set_ci_back (m_i m)) c m) = upd_nth c (backf (m_i m)) (cv m)) by (apply cv_ci_upd; reflexivity).
+    apply (cancel_stat _ (ci_upd (set_ci_back (m_i m)) c m) r x s HF E).
+    + eapply TI_backupd; [exact Hc|reflexivity|reflexivity|exact HT].
+    + eapply RM_backupd; [exact Hc|reflexivity|exact HR].
+  - apply (cancel_stat _ m r x s HF E HT HR).
+  - split; [exact HT|]. split; [exact HR|]. rewrite Hx. intros w Hw. inversion Hw; subst. left. exact Es.
+  - split; [exact HT|]. split; [exact HR|]. rewrite Hx. intros w Hw. inversion Hw; subst. right. exact Es.
 Qed.
 
 Lemma close_view m c : cv (ci_upd (fun x => set_ci_closed (first_some (ci_closed x) (m_i m)) x) c m) = upd_nth c (closef (m_i m)) (cv m).
@@ -1271,7 +1403,7 @@ Proof.
   destruct (stamp_fold (o_snap (m_prev m)) (o_snap ob) (fold_left (track_offer ob) (rev (out s')) m1)) as (A' & B' & C').
   rewrite A in A'. rewrite B in B'. rewrite C in C'.
   split.
-  - eapply TI_next; [| | |exact HT]; [exact A'|exact B'|]. cbn [m_i set_m_prev set_m_i]. rewrite C'. reflexivity.
+  - eapply TI_next; [| | |exact (proj1 HT)]; [exact A'|exact B'|]. cbn [m_i set_m_prev set_m_i]. rewrite C'. reflexivity.
   - eapply RM_views; [| |exact HR]; [exact A'|exact B'].
 Qed.
 
@@ -1286,13 +1418,7 @@ Proof.
     rewrite Hr, app_length. cbn [List.length reqs set_out]. pose proof (rm_rlen _ _ _ HR). lia.
   - apply G_do_poll, G_start; assumption.
   - (* Cancel *)
-    destruct (cancel_views m r ob) as (Hc & Hi & Hr & Hnh).
-    assert (HT' : TI (track_op cfg m (Cancel r) ob)).
-    { eapply TI_pres; [exact Hi| | |exact HT].
-      - destruct Hr as [-> | ->]; [intros k w' Hw'; exists w'; auto|]. intros k w' Hw'. eapply upd_stat_inv; eauto.
-      - rewrite Hc. intros c v' Hv'. exists v'. auto. }
-    assert (HR' : RM None (track_op cfg m (Cancel r) ob) s).
-    { destruct Hr as [Hr | Hr]; [eapply RM_views; eauto|]. eapply RM_stat; eauto. discriminate. }
+    destruct (cancel_ok m r ob s HT HR) as (HT' & HR' & Hnh).
     apply G_do_cancel; [reflexivity|exact Hnh|]. apply G_start; assumption.
   - apply G_do_finish, G_start; assumption.
   - (* Upgrade *)
